@@ -28,30 +28,43 @@ CLASSICAL_PRED_CLOSURES = {'SelfIdentityClosure', 'NonExistenceClosure'}
 def run(ctx, rep):
     m, lgs = ctx.m, ctx.lgs
     common.check_floors(ctx, rep, 'C05')
-    R0 = rep.rule('C05.R0', 'Branch.find/has match by Node.meets (all mapping keys equal); closure engine only closes')
-    fn = m.func('pytableaux.proof.common', 'Node.meets')
-    src = ast.unparse(fn)
-    ok = 'for key in mapping' in src and 'self[key] != mapping[key]' in src and 'return True' in src and 'return False' in src
-    rep.instance(R0, ok=ok, nontrivial='Node.meets')
-    rep.consult(m.loc('pytableaux.proof.common', fn) + ' Node.meets')
-    if not ok:
-        raise AnalysisError('Node.meets no longer in the recognised form')
-    for name, frag in (('has', 'self.find(mapping) is not None'), ('find', 'for node in self.search(mapping)'),
-                       ('search', 'node.meets(mapping)')):
-        fn = m.func('pytableaux.proof.common', f'Branch.{name}')
-        ok = frag in ast.unparse(fn)
-        rep.instance(R0, ok=ok, nontrivial=f'Branch.{name}')
-        rep.consult(m.loc('pytableaux.proof.common', fn) + f' Branch.{name}')
-        if not ok:
-            raise AnalysisError(f'Branch.{name} no longer reads as has -> find -> search -> Node.meets')
-    fn = m.func('pytableaux.proof.rules', 'FindClosingNodeRule._branch_target_hook')
-    src = ast.unparse(fn)
-    ok = 'self._find_closing_node(node, branch)' in src and 'is not None' in src
-    rep.instance(R0, ok=ok, nontrivial='_branch_target_hook')
-    if not ok:
-        rep.finding(R0, 'C05.R0/FindClosingNodeRule._branch_target_hook', m.loc('pytableaux.proof.rules', fn),
-                    'FindClosingNodeRule._branch_target_hook', 'no longer targets exactly when _find_closing_node finds a partner')
+    R0 = rep.rule('C05.R0', 'closure engine: FindClosingNodeRule targets exactly when a partner is found (folded); BranchValueHook caches the first target')
+    from ..minieval import Interp as _I, Raises as _Rs
+    RULES = 'pytableaux.proof.rules'
+    f_hook = m.func(RULES, 'FindClosingNodeRule._branch_target_hook')
+    f_will = m.func(RULES, 'FindClosingNodeRule.node_will_close_branch')
+    rep.consult(m.loc(RULES, f_hook) + ' FindClosingNodeRule._branch_target_hook', m.loc(RULES, f_will) + ' FindClosingNodeRule.node_will_close_branch')
+    for partner in (None, 'PARTNER'):
+        it = _I(dict(Target=lambda **kw: ('TARGET', kw.get('nodes'), kw.get('branch'))), where='proof/rules.py FindClosingNodeRule')
 
+        class RuleMock:
+            def _find_closing_node(self, node, branch):
+                return partner
+        r = RuleMock()
+        got = it.safe(f_hook, [r, 'NODE', 'BRANCH'])
+        want = None if partner is None else ('TARGET', ('NODE', 'PARTNER'), 'BRANCH')
+        ok = got == want or (partner is not None and not isinstance(got, _Rs) and got is not None and got[0] == 'TARGET'
+                             and set(got[1] or ()) == {'NODE', 'PARTNER'} and got[2] == 'BRANCH')
+        rep.instance(R0, ok=ok, nontrivial=('_branch_target_hook', partner))
+        if not ok:
+            rep.finding(R0, f'C05.R0/FindClosingNodeRule._branch_target_hook/partner={partner}', m.loc(RULES, f_hook),
+                        'FindClosingNodeRule._branch_target_hook', f'with closing partner {partner!r} the hook returns {got!r}, expected {want!r}')
+        got = it.safe(f_will, [r, 'NODE', 'BRANCH'])
+        ok = got is (partner is not None)
+        rep.instance(R0, ok=ok, nontrivial=('node_will_close_branch', partner))
+        if not ok:
+            rep.finding(R0, f'C05.R0/FindClosingNodeRule.node_will_close_branch/partner={partner}', m.loc(RULES, f_will),
+                        'FindClosingNodeRule.node_will_close_branch', f'with closing partner {partner!r} returns {got!r}')
+    R5 = rep.rule('C05.R5', 'branch lookup exactness (folded: Branch.find/has/search, Branch.Index.add/select/copy, Node.__getitem__/meets): '
+                            'find() returns a node meeting the query iff a scan of the branch finds one, on branches larger than the index cut-off and on copies')
+    from .. import branchfold
+    res, cons = branchfold.fold_branch_lookup(m, deep=rep.tier == 'thorough')
+    rep.consult(*cons)
+    for ok, case, detail in res:
+        rep.instance(R5, ok=ok, nontrivial=case)
+        if not ok:
+            rep.finding(R5, f'C05.R5/{case}', cons[0].split(' ')[0], 'Branch.find', f'{case}: {detail}')
+    rep.floor('C05.R5', 'lookup cases', len(res), 800)
     from .. import helpersfold
     res, cons = helpersfold.fold_branch_value_hook(m)
     rep.consult(*cons)
